@@ -185,6 +185,9 @@ func (vc *VC) checkInvs(st *State, ls *LoopSpec, kind string, entry *State, n in
 	env := vc.specEnv(st, vc.entry)
 	env.lentry = entry
 	for _, inv := range ls.Invs {
+		if !vc.wanted(inv.Props) {
+			continue
+		}
 		g := env.evalBool(inv.Expr)
 		props := inv.Props
 		o := vc.oblige(st, fmt.Sprintf("%s/loop%d", kind, n), inv.Text, inv.Where, g, props)
@@ -199,6 +202,9 @@ func (vc *VC) assumeInvs(st *State, ls *LoopSpec, entry *State) {
 	env := vc.specEnv(st, vc.entry)
 	env.lentry = entry
 	for _, inv := range ls.Invs {
+		if !vc.wanted(inv.Props) {
+			continue
+		}
 		st.assume(env.evalBool(inv.Expr))
 	}
 }
@@ -313,7 +319,7 @@ func (vc *VC) execFor(st *State, x *ast.ForStmt, label string) []*State {
 // anchors applies `assert @anchor: e` / `assume @anchor: e` clauses to the given states.
 func (vc *VC) anchors(sts []*State, anchor string, lentry *State, extra ...map[string]Term) {
 	for _, c := range vc.spec.Asserts {
-		if c.Name != anchor {
+		if c.Name != anchor || !vc.wanted(c.Props) {
 			continue
 		}
 		if vc.dry > 0 {
@@ -348,6 +354,10 @@ func (vc *VC) execRange(st *State, x *ast.RangeStmt, label string) []*State {
 	if pt, ok := rt.(*types.Pointer); ok {
 		rng = vc.loadDeref(st, vc.ts.apply(pt.Elem()), rng.S)
 		rt = under(rng.T)
+	}
+	if ls.Over != "" {
+		// the value of the range expression (evaluated once) under a name usable in invariants
+		st.ghost[ls.Over] = rng
 	}
 	idxName := ls.As
 	if idxName == "" {
